@@ -94,10 +94,10 @@ def run(ctx):
         for t in itertools.product(SYMS, repeat=n):
             texts.append(b"".join(t))
     nexh = len(texts) - ncorpus
-    for _ in range(ctx.budget(500, 20000)):
+    for _ in range(ctx.budget(300, 20000)):
         n = rng.range(1, 12)
         texts.append(b"".join(rng.choice(FRAGS) for _ in range(n)))
-    for _ in range(ctx.budget(150, 5000)):
+    for _ in range(ctx.budget(100, 5000)):
         texts.append(bytes(rng.choice([0x0a, 0x61, 0x80, 0xbf, 0xc3, 0xa9, 0xe2, 0x82, 0xac, 0xf0, 0x9f, 0x98, 0x80, 0xed, 0xa0, 0xf4, 0x90])
                            if rng.chance(4, 5) else rng.below(256) for _ in range(rng.range(1, 16))))
     ctx.rule = ("texts: hand-picked corpus (%d) + all concatenations of <= %d symbols from {a, LF, U+00E9, U+20AC, U+1F600} (%d) + random "
@@ -110,7 +110,7 @@ def run(ctx):
     outs = ctx.impl("srcfile", [{"mode": "text", "text": t.hex()} for t in texts])
     terms, meta = [], []
     outside_guard = [0, 0]  # cases outside the guard of the partial theorem: seen, failing
-    for t, o in zip(texts, outs):
+    for ti, (t, o) in enumerate(zip(texts, outs)):
         if "crash" in o or "panic" in o:
             ctx.corr_break("srcfile", {"text": t.hex()}, o)
             ctx.violation("panic", "harness crashed on this text", {"text": t.hex(), "observed": o})
@@ -123,8 +123,9 @@ def run(ctx):
             pub, raw = o["pub"][ui], o["raw"][ui]
             terms.append("SFPub %s %s %s" % (tl, u, coq_list(pub, coq_obs)))
             meta.append(("pub", t, u, pub))
-            terms.append("SFRaw %s %s %s" % (tl, u, coq_list(raw, coq_obs)))
-            meta.append(("raw", t, u, raw))
+            if ti < ncorpus or ti % 3 == 0 or ctx.tier == "thorough":   # the unexported functions: a third of the texts in the quick tier
+                terms.append("SFRaw %s %s %s" % (tl, u, coq_list(raw, coq_obs)))
+                meta.append(("raw", t, u, raw))
             # ---- direct oracle: the property on the implementation (exported API) ----
             for off, ob in enumerate(pub):
                 ctx.count((t, off, u), off > 0, u + ("/boundary" if off in bnd else "/inside-character"))
